@@ -18,6 +18,7 @@ package cloudblob
 
 import (
 	"context"
+	"crypto/sha256"
 	"errors"
 	"fmt"
 	"io"
@@ -117,14 +118,18 @@ func (e *ruleSetEndpoint) readRuleSet(ctx context.Context, bucket *blob.Bucket, 
 
 	defer reader.Close()
 
-	contents, err := config.ParseRules(attrs.ContentType, reader, false)
+	// the MD5 attribute is not available for every blob (e.g. multipart uploads to S3),
+	// so the hash used for change detection is computed from the contents
+	md := sha256.New()
+
+	contents, err := config.ParseRules(attrs.ContentType, io.TeeReader(reader, md), false)
 	if err != nil {
 		return nil, errorchain.
 			NewWithMessage(heimdall.ErrInternal, "failed to decode received rule set").
 			CausedBy(err)
 	}
 
-	contents.Hash = attrs.MD5
+	contents.Hash = md.Sum(nil)
 	contents.Source = fmt.Sprintf("%s@%s", key, e.ID())
 	contents.ModTime = attrs.ModTime
 
